@@ -184,6 +184,19 @@ static CK_RV retrieveAttributeMap(CK_ATTRIBUTE_PTR pTemplate, const std::map<CK_
 			return CKR_ATTRIBUTE_TYPE_INVALID;
 		}
 		const OSAttribute& attr = a->second;
+		// An entry without a buffer only asks for the size of its value
+		if (pTemplate[i].pValue == NULL_PTR)
+		{
+			if (attr.isBooleanAttribute())
+				pTemplate[i].ulValueLen = sizeof(CK_BBOOL);
+			else if (attr.isUnsignedLongAttribute())
+				pTemplate[i].ulValueLen = sizeof(CK_ULONG);
+			else if (attr.isByteStringAttribute())
+				pTemplate[i].ulValueLen = attr.getByteStringValue().size();
+			else
+				return CKR_GENERAL_ERROR;
+			continue;
+		}
 		if (attr.isBooleanAttribute())
 		{
 			if (pTemplate[i].ulValueLen < sizeof(CK_BBOOL))
